@@ -98,7 +98,7 @@ End FrameS.
 (* ------------------------------------------------------------------------------------------ *)
 (* the XML declaration                                                                        *)
 (* ------------------------------------------------------------------------------------------ *)
-(* one pseudo-attribute  S name Eq "value" *)
+(* one pseudo-attribute  S name Eq "value"; (R) the name is exactly the keyword ([r_pseudo]) *)
 Record pseudo := {
   p_ws : bytes;          (* before the name (>= 1) *)
   p_ws1 : bytes;         (* before '=' *)
@@ -145,10 +145,24 @@ Definition kw_element : bytes := [60; 33; 69; 76; 69; 77; 69; 78; 84].          
 Definition kw_attlist : bytes := [60; 33; 65; 84; 84; 76; 73; 83; 84].           (* <!ATTLIST *)
 Definition kw_notation : bytes := [60; 33; 78; 79; 84; 65; 84; 73; 79; 78].      (* <!NOTATION *)
 
-(* a quoted literal that is not read: (L) any characters but the closing quote *)
+(* XML 1.0 [13] PubidChar ::= #x20 | #xD | #xA | [a-zA-Z0-9] | [-'()+,./:=?;!*#@$_%], transcribed
+   from the recommendation (independent of the model's [CharClass.pubid_char]) *)
+Definition pubid_punct : list N :=
+  [45; 39; 40; 41; 43; 44; 46; 47; 58; 61; 63; 59; 33; 42; 35; 64; 36; 95; 37].   (* -'()+,./:=?;!*#@$_% *)
+Definition xml_PubidChar (c : N) : bool :=
+  (c =? 32) || (c =? 13) || (c =? 10) ||
+  ((97 <=? c) && (c <=? 122)) || ((65 <=? c) && (c <=? 90)) || ((48 <=? c) && (c <=? 57)) ||
+  existsb (N.eqb c) pubid_punct.
+
+(* a quoted literal  q ... q  *)
 Definition r_lit (q : N) (v : scalars) : bytes := [q] ++ utf8s v ++ [q].
-Definition wf_lit (q : N) (v : scalars) : bool :=
-  is_quote q && forallb (fun x => Chars.scalar x && negb (x =? q)) v.
+(* [11] SystemLiteral: (R) Chars only, the quote ends the literal; the content is not read otherwise *)
+Definition wf_syslit (q : N) (v : scalars) : bool :=
+  is_quote q && forallb (fun x => Chars.xml_Char x && negb (x =? q)) v.
+(* [12] PubidLiteral: (R) PubidChars only, the quote ends the literal (an apostrophe may stand
+   inside a literal delimited by double quotes; a double quote is no PubidChar) *)
+Definition wf_publit (q : N) (v : scalars) : bool :=
+  is_quote q && forallb (fun x => xml_PubidChar x && negb (x =? q)) v.
 
 Inductive extid :=
 | XSystem (ws : bytes) (q : N) (sys : scalars)                                        (* SYSTEM S "sys" *)
@@ -160,8 +174,8 @@ Definition r_extid (x : extid) : bytes :=
   end.
 Definition wf_extid (x : extid) : bool :=
   match x with
-  | XSystem ws q s => wf_s1 ws && wf_lit q s
-  | XPublic ws q p ws' q' s => wf_s1 ws && wf_lit q p && wf_s1 ws' && wf_lit q' s
+  | XSystem ws q s => wf_s1 ws && wf_syslit q s
+  | XPublic ws q p ws' q' s => wf_s1 ws && wf_publit q p && wf_s1 ws' && wf_syslit q' s
   end.
 
 (* the definition of a parameter entity *)
@@ -276,6 +290,7 @@ Definition wf_sdecl (s : sdecl) : bool :=
   | SParam ws0 ws1 wsp name ws2 def ws3 =>
     wf_s ws0 && wf_s1 ws1 && wf_s1 wsp && CstU.wf_name name && wf_s1 ws2 && wf_pedef def && wf_s ws3
   | SExternal ws0 ws1 name ws2 x ndata ws3 =>
+    (* (R) NDataDecl ::= S 'NDATA' S Name: the white space before NDATA is mandatory *)
     wf_s ws0 && wf_s1 ws1 && CstU.wf_name name && wf_s1 ws2 && wf_extid x &&
     wf_opt (fun n => wf_s1 (fst (fst n)) && wf_s1 (snd (fst n)) && CstU.wf_name (snd n)) ndata && wf_s ws3
   | SMarkup ws0 k body =>  (* (L) the declaration is skipped whatever it contains, up to the first '>' that
